@@ -162,7 +162,7 @@ class Report:
         for f in self.known_hit:
             print('KNOWN-FINDING: property=%s %s' % (self.pid, f['what']))
         for f in known_findings(self.pid):
-            if f['id'] not in [k['id'] for k in self.known_hit] and f.get('expect_every_run', True):
+            if f['id'] not in [k['id'] for k in self.known_hit] and f.get('expect_every_run', True) and self.write_evidence:     # (a replay runs one case only)
                 print('STALE-FINDING: property=%s %s (listed as known but not reproduced in this run)' % (self.pid, f['id']))
         cov = dict(self.cov)
         cov['known_findings_reproduced'] = [f['id'] for f in self.known_hit]
